@@ -98,7 +98,8 @@ def check_polygon(plane, poly, t1, t2, size, cls, entry, ctx, add):
     if np.allclose(poly, poly[0]):
         return 0.0
     crosses = [float(np.cross(poly[(i + 1) % m] - poly[i], poly[(i + 2) % m] - poly[(i + 1) % m]) @ n) for i in range(m)]
-    if min(crosses) < -1e-12 * size * size and max(crosses) > 1e-12 * size * size:
+    emax = max(float(np.linalg.norm(poly[(i + 1) % m] - poly[i])) for i in range(m))
+    if min(crosses) < -1e-9 * emax * emax and max(crosses) > 1e-9 * emax * emax:
         add(_viol(entry, "polygon_not_convex", cls, dict(ctx, crosses=crosses, polygon=poly)))
     area = 0.5 * abs(sum(float(np.cross(poly[i] - poly[0], poly[i + 1] - poly[0]) @ n) for i in range(1, m - 1)))
     return area
